@@ -182,6 +182,9 @@ macro_rules! backend_impl {
                 pub tsk: GLWETensorKeyPrepared<DeviceBuf<BE>, BE>,
                 /// the raw tensor key as `base2k,colsIn,colsOut,dsize,dnum,size:ints` (cells in (row, input column) order), for `dump=1`
                 pub tsk_dump: String,
+                /// raw automorphism keys: rotation index -> (Galois element, dump); the conjugation key (Galois element -1)
+                pub rot_dump: HashMap<i64, (i64, String)>,
+                pub conj_dump: String,
                 pub rot: HashMap<i64, GLWEAutomorphismKeyPrepared<DeviceBuf<BE>, BE>>,
                 pub conj: GLWEAutomorphismKeyPrepared<DeviceBuf<BE>, BE>,
                 pub scratch: ScratchOwned<BE>,
@@ -244,16 +247,34 @@ macro_rules! backend_impl {
                     module.glwe_automorphism_key_encrypt_sk(&mut atk, gal, &sk_raw, &atk_l, xa, xe, scratch.borrow());
                     let mut p = module.glwe_automorphism_key_prepared_alloc_from_infos(&atk_l);
                     module.glwe_automorphism_key_prepare(&mut p, &atk, scratch.borrow());
-                    p
+                    let dump = {
+                        let kr = GGLWEToRef::to_ref(&atk);
+                        let gsize = kk.div_ceil(base2k);
+                        let mut v: Vec<String> = Vec::new();
+                        for r in 0..dnum {
+                            let cell = kr.at(r, 0);
+                            let d = cell.data();
+                            for co in 0..d.cols() {
+                                for j in 0..d.size() {
+                                    v.extend(d.at(co, j).iter().map(|x| x.to_string()));
+                                }
+                            }
+                        }
+                        format!("{base2k},1,2,1,{dnum},{gsize}:{}", v.join("."))
+                    };
+                    (p, dump)
                 };
                 let mut rot = HashMap::new();
+                let mut rot_dump = HashMap::new();
                 for &k in keys {
                     let g = module.galois_element(k);
-                    rot.insert(k, mk(g, &mut xa, &mut xe, &mut scratch));
+                    let (p, d) = mk(g, &mut xa, &mut xe, &mut scratch);
+                    rot.insert(k, p);
+                    rot_dump.insert(k, (g, d));
                 }
-                let conj = mk(-1, &mut xa, &mut xe, &mut scratch);
+                let (conj, conj_dump) = mk(-1, &mut xa, &mut xe, &mut scratch);
                 let encoder = Encoder::<F>::new(n / 2).unwrap();
-                Ctx { n, base2k, module, encoder, sk, tsk: tskp, tsk_dump, rot, conj, scratch, xa, xe }
+                Ctx { n, base2k, module, encoder, sk, tsk: tskp, tsk_dump, rot_dump, conj_dump, rot, conj, scratch, xa, xe }
             }
 
             fn show_pool(pool: &[Ct]) -> String {
@@ -1155,6 +1176,13 @@ macro_rules! backend_impl {
                     out.push(format!("init#{}", pool.iter().map(dump_ct).collect::<Vec<_>>().join("/")));
                     if kvu(t, "needkey", 0) == 1 {
                         out.push(format!("key#{}", ctx.tsk_dump));
+                    }
+                    if kvu(t, "needatk", 0) == 1 {
+                        let mut ks: Vec<&i64> = ctx.rot_dump.keys().collect();
+                        ks.sort();
+                        let a: Vec<String> = ks.iter().map(|k| format!("{}~{}~{}", k, ctx.rot_dump[k].0, ctx.rot_dump[k].1)).collect();
+                        out.push(format!("atk#{}", if a.is_empty() { "-".to_string() } else { a.join(";") }));
+                        out.push(format!("ctk#-1~{}", ctx.conj_dump));
                     }
                     DUMP_PT.with(|d| *d.borrow_mut() = (true, st ^ 0x5DEECE66D, String::new()));
                 } else {
